@@ -597,7 +597,7 @@ func (p *jsonPathParser) pushCompareNE(
 
 func (p *jsonPathParser) pushCompareGE(
 	leftParam, rightParam *syntaxBasicCompareParameter) {
-	if leftParam.isLiteral {
+	if leftParam.isLiteral && !rightParam.isLiteral {
 		p.pushCompareLE(rightParam, leftParam)
 		return
 	}
@@ -606,7 +606,7 @@ func (p *jsonPathParser) pushCompareGE(
 
 func (p *jsonPathParser) pushCompareGT(
 	leftParam, rightParam *syntaxBasicCompareParameter) {
-	if leftParam.isLiteral {
+	if leftParam.isLiteral && !rightParam.isLiteral {
 		p.pushCompareLT(rightParam, leftParam)
 		return
 	}
@@ -615,7 +615,7 @@ func (p *jsonPathParser) pushCompareGT(
 
 func (p *jsonPathParser) pushCompareLE(
 	leftParam, rightParam *syntaxBasicCompareParameter) {
-	if leftParam.isLiteral {
+	if leftParam.isLiteral && !rightParam.isLiteral {
 		p.pushCompareGE(rightParam, leftParam)
 		return
 	}
@@ -624,7 +624,7 @@ func (p *jsonPathParser) pushCompareLE(
 
 func (p *jsonPathParser) pushCompareLT(
 	leftParam, rightParam *syntaxBasicCompareParameter) {
-	if leftParam.isLiteral {
+	if leftParam.isLiteral && !rightParam.isLiteral {
 		p.pushCompareGT(rightParam, leftParam)
 		return
 	}
